@@ -177,6 +177,13 @@ func (x *a64) MarshalInto(kind int) (bsiAPI, error) {
 	switch kind {
 	case 1:
 		n = roaring64.NewBSI(math.MaxInt64, math.MinInt64)
+	case 3:
+		// fixed width, and the columns the alphabets use already hold wide positive and negative values: every plane of
+		// the receiver is populated on exactly the columns the decoded data brings
+		n = roaring64.NewBSI(math.MaxInt64, math.MinInt64)
+		for c := uint64(0); c < 12; c++ {
+			n.SetValue(c, (1<<40+0x155)*(1-2*int64(c%2)))
+		}
 	default:
 		n = roaring64.NewDefaultBSI()
 		n.SetValue(7, -5)
@@ -404,6 +411,11 @@ func (x *a32) MarshalInto(kind int) (bsiAPI, error) {
 	switch kind {
 	case 1:
 		n = bsi32.NewBSI(math.MaxInt64, math.MinInt64)
+	case 3:
+		n = bsi32.NewBSI(math.MaxInt64, math.MinInt64)
+		for c := uint64(0); c < 12; c++ {
+			n.SetValue(c, (1<<40+0x155)*(1-2*int64(c%2)))
+		}
 	default:
 		n = bsi32.NewDefaultBSI()
 		n.SetValue(7, -5)
